@@ -41,7 +41,7 @@ type daemonOpts struct {
 	sshdPath  string // override (mis-configuration scenarios)
 	auditPath string
 	noFifos   bool
-	logLevel  string // "" => error
+	logLevel  string   // "" => error
 	extra     []string // further command-line flags
 }
 
